@@ -123,6 +123,14 @@ type bindObs struct {
 }
 
 // implBind runs Prepare + Query + Run on a fresh fake database.
+func strHash(s string) uint64 {
+	h := uint64(1469598103934665603)
+	for i := 0; i < len(s); i++ {
+		h = (h ^ uint64(s[i])) * 1099511628211
+	}
+	return h >> 7
+}
+
 func implBind(c bindCase) (o bindObs) {
 	defer func() {
 		if r := recover(); r != nil {
@@ -136,6 +144,30 @@ func implBind(c bindCase) (o bindObs) {
 			return bindObs{line: "PARSE-ERR", prepErr: msg}
 		}
 		return bindObs{line: "PREPARE-ERR " + classifyBindErr(msg), prepErr: msg}
+	}
+	// A Statement is an immutable value: what a run produces does not depend on earlier runs.  In a
+	// third of the cases the Statement has already been run with arguments of another shape (other
+	// zero pattern of the omitempty members, other slice lengths) or with arguments that contribute
+	// nothing, and in some of those the observed run is on a Statement prepared afterwards.
+	if h := strHash(c.query); h%3 == 0 && len(c.args) > 0 {
+		wr := newRng(h)
+		var other []any
+		for i, a := range c.args {
+			if h%2 == 0 {
+				other = append(other, reshape(wr, a, int(h%7)+i))
+			} else {
+				other = append(other, emptied(a))
+			}
+		}
+		func() {
+			defer func() { recover() }()
+			runOnce(stmt, other)
+		}()
+		if h%5 == 0 {
+			if stmt2, err2 := sqlair.Prepare(c.query, c.samples...); err2 == nil {
+				stmt = stmt2
+			}
+		}
 	}
 	sqldb, f := openFake()
 	defer dropFakeDB(f.name)
